@@ -20,7 +20,8 @@ def mk(rows):
     return a
 
 
-@strax.takes_config(strax.Option("mp_rows", default=(), track=True), strax.Option("mp_cuts", default=(), track=False))
+@strax.takes_config(strax.Option("mp_rows", default=(), track=True), strax.Option("mp_cuts", default=(), track=False),
+                    strax.Option("mp_fault", default=None, track=False))
 class MpSrc(strax.Plugin):
     provides = "mpsrc"
     depends_on = ()
@@ -35,6 +36,7 @@ class MpSrc(strax.Plugin):
         return chunk_i < len(self.config["mp_cuts"]) - 1
 
     def compute(self, chunk_i):
+        _arm(self.config["mp_fault"])
         cuts = self.config["mp_cuts"]
         a = mk(self.config["mp_rows"])
         lo, hi = cuts[chunk_i], cuts[chunk_i + 1]
@@ -44,6 +46,57 @@ class MpSrc(strax.Plugin):
         return self.chunk(start=lo, end=hi, data=a[m])
 
 
+_FAULT = {"spec": None, "installed": False}
+
+
+def _fault_hook(event, args):
+    """Audit hook of a pool worker PROCESS (armed from MpRow.compute, which runs there before the inlined
+    savers of the same task): one injected fault at the write / rename of one chunk file."""
+    spec = _FAULT["spec"]
+    if not spec:
+        return
+    if event == "open":
+        path, mode = args[0], args[1]
+        if not isinstance(path, str) or not mode or not any(c in mode for c in "wxa"):
+            return
+        op = "open:w"
+    elif event == "os.rename":
+        path, op = args[0], "os.rename"
+        if not isinstance(path, str):
+            return
+    else:
+        return
+    import errno
+    import os
+
+    base = os.path.basename(path)
+    if ("-%06d" % spec["chunk"]) not in base:
+        return
+    if spec["op"] == "meta":
+        # the per-chunk metadata file a forked saver leaves for the parent to collect
+        if op != "open:w" or not base.startswith("metadata_" + spec["dtype"] + "-"):
+            return
+    elif op != spec["op"] or not base.startswith(spec["dtype"] + "-"):
+        return
+    try:
+        os.close(os.open(spec["marker"], os.O_CREAT | os.O_EXCL | os.O_WRONLY))
+    except FileExistsError:
+        return  # one shot
+    if spec["mode"] == "exit":
+        os._exit(77)
+    raise OSError(errno.EIO, "injected I/O error in a pool worker process")
+
+
+def _arm(spec):
+    import sys
+
+    _FAULT["spec"] = dict(spec) if spec else None
+    if spec and not _FAULT["installed"]:
+        sys.addaudithook(_fault_hook)
+        _FAULT["installed"] = True
+
+
+@strax.takes_config(strax.Option("mp_fault", default=None, track=False))
 class MpRow(strax.Plugin):
     provides = "mprow"
     depends_on = ("mpsrc",)
@@ -53,6 +106,7 @@ class MpRow(strax.Plugin):
     rechunk_on_save = False
 
     def compute(self, mpk):
+        _arm(self.config["mp_fault"])
         r = mpk.copy()
         r["v0"] = mpk["v0"] * 3 + 1
         return r
@@ -87,7 +141,14 @@ class MpTop(strax.Plugin):
         return r
 
 
+class MpSrcP(MpSrc):
+    """The source itself runs in the process pool: strax then inlines the whole parallel chain AND the savers
+    of its outputs into one ParallelSourcePlugin (chunk files are written by the worker processes)."""
+    parallel = "process"
+
+
 ALL = [MpSrc, MpRow, MpMulti, MpTop]
+ALL_INLINE = [MpSrcP, MpRow, MpMulti, MpTop]
 
 
 def whole_run(rows):
